@@ -8,6 +8,9 @@ Event kinds
                 label, index of the reported quaternion in the searched set, error)
   PostAlign     every LoaderBase._post_align/_post_align_multi_templates return: input poses, per-row
                 results, output poses, scale (fixed point), for the write-back algebra of C01
+  LoaderAlign   every loader.align / align_multi_templates / align_no_template (and LoaderGroup) return:
+                the caller's max_shifts (nm), the scale and each molecule's displacement in its own
+                frame, for the loader-level clause of C05
 """
 from __future__ import annotations
 
@@ -110,6 +113,80 @@ def install():
             MISSING.append("LoaderBase." + name)
             continue
         _wrap_post(lb.LoaderBase, name)
+    for name in ("align", "align_multi_templates", "align_no_template"):
+        if name not in lb.LoaderBase.__dict__:
+            MISSING.append("LoaderBase." + name)
+            continue
+        _wrap_loader_align(lb.LoaderBase, name)
+    try:
+        from acryo.loader._group import LoaderGroup
+    except Exception:  # noqa: BLE001
+        MISSING.append("LoaderGroup")
+        return
+    for name in ("align", "align_multi_templates", "align_no_template"):
+        if name in LoaderGroup.__dict__:
+            _wrap_group_align(LoaderGroup, name)
+        else:
+            MISSING.append("LoaderGroup." + name)
+
+
+def _norm_ms(ms):
+    a = np.asarray(ms, dtype=np.float64)
+    return _fx(np.broadcast_to(a, (3,)))
+
+
+def _displacements(mi, mo, scale):
+    """R_in^-1 (p_out - p_in) / scale per row, fixed point 1e-3 px (user-level clause of C05)."""
+    n = min(len(mi), len(mo), 64)
+    if len(mi) != len(mo):
+        return None
+    out = []
+    Ri = mi.rotator
+    for i in range(n):
+        d = Ri[i].inv().apply((np.asarray(mo.pos[i], dtype=np.float64) - np.asarray(mi.pos[i], dtype=np.float64)) / scale)
+        out.append(_fx(d))
+    return out
+
+
+def _wrap_loader_align(cls, name):
+    orig = cls.__dict__[name]
+
+    @functools.wraps(orig)
+    def wrapped(self, *a, **k):
+        out = orig(self, *a, **k)
+        try:
+            ms = k.get("max_shifts", 1.0)
+            rows = _displacements(self.molecules, out.molecules, float(self.scale))
+            _emit({"kind": "LoaderAlign", "fn": name, "max_shifts_nm": _norm_ms(ms), "scale_milli": int(round(float(self.scale) * 1000)),
+                   "rows": rows if rows is not None else [], "same_count": rows is not None, "tag": getattr(_ctx, "tag", "")})
+        except Exception as e:  # noqa: BLE001
+            _emit({"kind": "RecorderError", "fn": name, "what": type(e).__name__ + ": " + str(e)[:100]})
+        return out
+
+    setattr(cls, name, wrapped)
+
+
+def _wrap_group_align(cls, name):
+    orig = cls.__dict__[name]
+
+    @functools.wraps(orig)
+    def wrapped(self, *a, **k):
+        before = [(key, ldr) for key, ldr in self]
+        out = orig(self, *a, **k)
+        try:
+            ms = k.get("max_shifts", 1.0)
+            after = {key: ldr for key, ldr in out}
+            for key, ldr in before:
+                if key not in after:
+                    continue
+                rows = _displacements(ldr.molecules, after[key].molecules, float(ldr.scale))
+                _emit({"kind": "LoaderAlign", "fn": "group." + name, "max_shifts_nm": _norm_ms(ms), "scale_milli": int(round(float(ldr.scale) * 1000)),
+                       "rows": rows if rows is not None else [], "same_count": rows is not None, "tag": getattr(_ctx, "tag", "")})
+        except Exception as e:  # noqa: BLE001
+            _emit({"kind": "RecorderError", "fn": "group." + name, "what": type(e).__name__ + ": " + str(e)[:100]})
+        return out
+
+    setattr(cls, name, wrapped)
 
 
 def _wrap_post(cls, name):
